@@ -4,6 +4,7 @@ import (
 	"encoding/json"
 	"fmt"
 	"github.com/uhppoted/uhppote-core/uhppote"
+	"net"
 	"os"
 	"path/filepath"
 	"sort"
@@ -126,8 +127,97 @@ func dateSites(y, m, d int) string {
 				out += " DIFF:sysdate"
 			}
 		}
+		out += opDateSites(y, m, d, a)
 		return out
 	})
+}
+
+// opDateSites: the same date through the operations that carry dates - in a reply (GetCardByID, GetCardByIndex,
+// GetTimeProfile, GetDevice) and in a request (PutCard, SetTimeProfile, AddTask): what an operation returns is the
+// value the wire decoder gives, what it sends are the digits the wire encoder gives. Empty when everything agrees.
+func opDateSites(y, m, d int, a time.Time) string {
+	const dev = 405419896
+	out := ""
+	digits := bcdBytes(fmt.Sprintf("%04d%02d%02d", y, m, d))
+	tz := otherZones[(y+m+d)%len(otherZones)]
+	u, drv := newClient([]uhppote.Device{{Name: "z", DeviceID: dev, Protocol: "udp", TimeZone: tz}}, types.BroadcastAddr{})
+	// what the wire decoder makes of these digits (compared with the other date sites by the caller)
+	var w types.Date
+	leaf, err := w.UnmarshalUT0311L0x(append(append([]byte{}, digits...), 0, 0, 0, 0))
+	if err != nil {
+		return out
+	}
+	decoded := time.Time(*leaf.(*types.Date))
+	same := func(site string, got types.Date) {
+		if !time.Time(got).Equal(decoded) {
+			out += " DIFF:" + site
+		}
+	}
+	reply := func(msg any, offsets ...int) {
+		b, _ := codec.Marshal(msg)
+		for _, o := range offsets {
+			copy(b[o:o+4], digits)
+		}
+		drv.Datagrams = [][]byte{b}
+	}
+	reply(messages.GetCardByIDResponse{SerialNumber: dev, CardNumber: 8165538}, 12, 16)
+	if c, err := u.GetCardByID(dev, 8165538); err != nil || c == nil {
+		out += " DIFF:GetCardByID:err"
+	} else {
+		same("GetCardByID.From", c.From)
+		same("GetCardByID.To", c.To)
+	}
+	reply(messages.GetCardByIndexResponse{SerialNumber: dev, CardNumber: 8165538}, 12, 16)
+	if c, err := u.GetCardByIndex(dev, 1); err != nil || c == nil {
+		out += " DIFF:GetCardByIndex:err"
+	} else {
+		same("GetCardByIndex.From", c.From)
+		same("GetCardByIndex.To", c.To)
+	}
+	reply(messages.GetTimeProfileResponse{SerialNumber: dev, ProfileID: 29}, 9, 13)
+	if p, err := u.GetTimeProfile(dev, 29); err != nil || p == nil {
+		out += " DIFF:GetTimeProfile:err"
+	} else {
+		same("GetTimeProfile.From", p.From)
+		same("GetTimeProfile.To", p.To)
+	}
+	reply(messages.GetDeviceResponse{SerialNumber: dev, IpAddress: net.IPv4(10, 0, 0, 1), SubnetMask: net.IPv4(255, 0, 0, 0), Gateway: net.IPv4(10, 0, 0, 254), MacAddress: types.MacAddress{1, 2, 3, 4, 5, 6}}, 28)
+	if v, err := u.GetDevice(dev); err != nil || v == nil {
+		out += " DIFF:GetDevice:err"
+	} else {
+		same("GetDevice.Date", v.Date)
+	}
+	// requests
+	encoded, err := types.Date(a).MarshalUT0311L0x() // what the wire encoder makes of the value (compared with the digits by the caller)
+	if err != nil {
+		return out
+	}
+	sent := func(site string, offsets ...int) {
+		if len(drv.Calls) != 1 {
+			out += " DIFF:" + site + ":not-sent"
+			return
+		}
+		for _, o := range offsets {
+			if fmt.Sprintf("%x", drv.Calls[0].Req[o:o+4]) != fmt.Sprintf("%x", encoded) {
+				out += fmt.Sprintf(" DIFF:%s@%d:%x", site, o, drv.Calls[0].Req[o:o+4])
+			}
+		}
+	}
+	date := types.Date(a)
+	if date.IsZero() { // 0001-01-01 in a zone at offset 0 is the "no date" value: encoded as zeroes, refused by SetTimeProfile
+		return out
+	}
+	drv.Calls, drv.Datagrams = nil, nil
+	u.PutCard(dev, types.Card{CardNumber: 8165538, From: date, To: date, Doors: map[uint8]uint8{1: 1}})
+	sent("PutCard", 12, 16)
+	drv.Calls = nil
+	u.SetTimeProfile(dev, types.TimeProfile{ID: 29, From: date, To: date, Weekdays: types.Weekdays{time.Monday: true},
+		Segments: types.Segments{1: types.Segment{}, 2: types.Segment{}, 3: types.Segment{}}})
+	sent("SetTimeProfile", 9, 13)
+	drv.Calls = nil
+	u.AddTask(dev, types.Task{Task: 1, Door: 1, From: date, To: date, Weekdays: types.Weekdays{time.Monday: true}})
+	sent("AddTask", 8, 12)
+	return out
 }
 
 // zones a controller may be configured with / a SetTime argument may carry (nil: none)
@@ -280,6 +370,14 @@ func streamZones(c *ctx) {
 					} else if f := civilOf(time.Time(got.DateTime)); f != civilOf(t) {
 						res += " GETTIME:" + f
 					}
+					be, _ := codec.Marshal(messages.GetEventResponse{SerialNumber: dev, Index: 17, Type: 1})
+					copy(be[20:27], bcdBytes(fmt.Sprintf("%04d%02d%02d%02d%02d%02d", y, mo, d, h, mi, s)))
+					dg.Datagrams = [][]byte{be}
+					if got, err := ug.GetEvent(dev, 17); err != nil || got == nil {
+						res += " GETEVENT:err"
+					} else if f := civilOf(time.Time(got.Timestamp)); f != civilOf(t) {
+						res += " GETEVENT:" + f
+					}
 					bs, _ := codec.Marshal(messages.SetTimeResponse{SerialNumber: dev})
 					copy(bs[8:15], bcdBytes(fmt.Sprintf("%04d%02d%02d%02d%02d%02d", y, mo, d, h, mi, s)))
 					dg.Datagrams = [][]byte{bs}
@@ -350,5 +448,5 @@ func streamZones(c *ctx) {
 		w.Emit(fmt.Sprintf("zzero %s %d", name, lmt), out, "zero-values", "zone/"+name)
 	}
 	time.Local = saved
-	w.Notes = append(w.Notes, fmt.Sprintf("zones stream: %d zones as the process-local zone (time.Local swapped in-process, IANA data from /usr/share/zoneinfo): every date 1900..2037 whose local midnight a transition removes (%d zone/day pairs) and its neighbours, random dates; ToDate / ParseDate / wire / JSON / SystemDate must agree and encode back to the same digits; date-times at 8 offsets around transitions (both offsets) and random; status system date+time recombination, the same civil time through GetTime (controller configured with another time zone) and SetTime (argument in another Location); zero Date / DateTime round trip", len(zones), nGap))
+	w.Notes = append(w.Notes, fmt.Sprintf("zones stream: %d zones as the process-local zone (time.Local swapped in-process, IANA data from /usr/share/zoneinfo): every date 1900..2037 whose local midnight a transition removes (%d zone/day pairs) and its neighbours, random dates; ToDate / ParseDate / wire / JSON / SystemDate must agree and encode back to the same digits; date-times at 8 offsets around transitions (both offsets) and random; every date also through the operations that carry dates in replies and requests; status system date+time recombination, the same civil time through GetTime (controller configured with another time zone) and SetTime (argument in another Location); zero Date / DateTime round trip", len(zones), nGap))
 }
